@@ -40,7 +40,19 @@ def strategy_(g):
         # two poses with bitwise-identical rotation, a pure translation apart (a translating platform)
         n = R.PDIM[k]
         b = {"k": k, "v": list(b["v"][:n]) + list(a["v"][n:])}
-    return {"k": k, "a": a, "b": b, "c": c, "pt": pt, "d": d}
+    # raw ndarray operands of another numeric dtype (an integer landmark table, float32 sensor data): same values, same result
+    npk = R.PDIM[k]
+    big = g.choice([5, 5, 1000])
+    ipt = [g.rnd.randint(-big, big) for _ in range(npk)]
+    idl = [g.rnd.randint(-big, big) for _ in range(npk)]
+    if k == "se2":
+        idl.append(g.rnd.randint(-3, 3))
+    if k == "se3":
+        rot = [0, 0, 0]
+        if g.rnd.random() < 0.5:
+            rot[g.rnd.randrange(3)] = g.rnd.choice([1, -1])
+        idl += rot
+    return {"k": k, "a": a, "b": b, "c": c, "pt": pt, "d": d, "ipt": ipt, "idl": idl, "npdtype": g.choice(["int64", "int32", "float32", "int16"])}
 
 
 def strategy(tier):
@@ -211,6 +223,32 @@ def check(case, ctx):
         fc = gs.mk_pose_kv(k, [R.val(x) for x in R.from_compact(k, dd)])
         if _cmp_pose(ctx, "boxplus", "a+delta vs a+from_compact(delta)", k, bp, gs.stored(a + fc), S_, 2, rot_tol):
             return
+
+    # ---- plain ndarrays of any numeric dtype are values: an integer / float32 point or increment acts like its float64 twin
+    if "ipt" in case:
+        dt = np.dtype(case["npdtype"])
+        ctx.event("ndarray-operand-dtype:" + dt.name)
+        for name, vals, is_point in (("point", case["ipt"], True), ("increment", case["idl"], False)):
+            arr_t = np.array(vals, dtype=dt)
+            arr_f = np.array(vals, dtype=np.float64)
+            snap_t = arr_t.tobytes()
+            got, twin = a + arr_t, a + arr_f
+            if type(got) is not type(twin):
+                return ctx.fail("ndarray-dtype", "type(pose + %s ndarray %s) = %s, expected %s" % (dt.name, name, type(got).__name__, type(twin).__name__))
+            if np.asarray(got).dtype != np.float64:
+                return ctx.fail("ndarray-dtype", "pose + %s ndarray %s has dtype %s" % (dt.name, name, np.asarray(got).dtype))
+            Sx = max(S_, float(max(abs(v) for v in vals)))
+            if is_point and k in ("se2", "se3"):
+                want_ = [R.val(x) for x in R.act(k, ra, [float(v) for v in vals])]
+                if ctx.check_close("ndarray-dtype", "a + %s point vs reference action" % dt.name, gs.stored(got), want_, 1e-11 * (1 + Sx) * 2):
+                    return
+            elif not is_point:
+                if _cmp_pose(ctx, "ndarray-dtype", "a + %s increment vs ref boxplus" % dt.name, k, got, R.boxplus(k, ra, [float(v) for v in vals]), Sx, 2, 1e-12):
+                    return
+            if gs.bits(got) != gs.bits(twin):
+                return ctx.fail("ndarray-dtype", "pose + %s ndarray %s %r differs from pose + the same values as float64: %r vs %r" % (dt.name, name, vals, gs.stored(got), gs.stored(twin)))
+            if arr_t.tobytes() != snap_t:
+                return ctx.fail("operand-mutated", "the %s ndarray operand changed" % dt.name)
 
     # ---- += rebinds, never mutates ----------------------------------------------------------------
     p = a
